@@ -130,13 +130,24 @@ def extract(repo):
         rest = rest[a.end():]
     if rest.strip() != "_ => out.push(c),":
         raise Shape("lir.rs template_literal_text: remaining arms not understood: " + rest[:120])
-    return lex, table, nul, rewrites
+    # --- libsam.wat $__Str$eq: how the two operands' bytes are read inside the comparison loop
+    wat = open(os.path.join(repo, "crates/samlang-compiler/src/libsam.wat")).read()
+    i = wat.find("(func $__Str$eq ")
+    if i < 0:
+        raise Shape("libsam.wat: (func $__Str$eq not found")
+    j = wat.find("\n(func ", i + 1)
+    body = norm(re.sub(r";;[^\n]*", "", wat[i:j if j > 0 else len(wat)]))
+    m = re.search(r"\(if \(i32\.ne \(array\.get_([su]) \$_Str \(local\.get \$a\) \(local\.get \$i\)\) "
+                  r"\(array\.get_([su]) \$_Str \(local\.get \$b\) \(local\.get \$i\)\) \) \(then \(return \(i32\.const 0\)\)\)\)", body)
+    if not m or len(re.findall(r"array\.get_[su]", body)) != 2:
+        raise Shape("libsam.wat $__Str$eq: comparison `(if (i32.ne (array.get_? $_Str a i) (array.get_? $_Str b i)) (then (return 0)))` not found")
+    return lex, table, nul, rewrites, (m.group(1) == "s", m.group(2) == "s")
 
 
-def render(lex, table, nul, rewrites):
+def render(lex, table, nul, rewrites, eqreads):
     L = lambda xs: "[" + ", ".join(str(x) for x in xs) + "]"
     out = ["-- GENERATED by /verif/extract/c04_strings.py from /repo (lexer.rs string_has_valid_escape,",
-           "-- lir.rs template_literal_text, wasm_lowering.rs string_constant_bytes). Do not edit.",
+           "-- lir.rs template_literal_text, wasm_lowering.rs string_constant_bytes, libsam.wat $__Str$eq). Do not edit.",
            "namespace SamVerif.Backends", "",
            "/-- characters the lexer accepts after a backslash (a second backslash is handled separately) -/",
            f"def lexEscapes : List Nat := {L(lex)}", "",
@@ -147,6 +158,9 @@ def render(lex, table, nul, rewrites):
            "/-- TypeScript template literal: (character, required next character, replacement text) -/",
            "def tsRewrites : List (Nat × Option Nat × List Nat) := [" +
            ", ".join(f"({c}, {'none' if g is None else 'some ' + str(g)}, {L(r)})" for c, g, r in rewrites) + "]", "",
+           "/-- `$__Str$eq` (libsam.wat): operand a / operand b is read with `array.get_s` (sign-extending) -/",
+           f"def strEqSignedA : Bool := {'true' if eqreads[0] else 'false'}",
+           f"def strEqSignedB : Bool := {'true' if eqreads[1] else 'false'}", "",
            "end SamVerif.Backends", ""]
     return "\n".join(out)
 
